@@ -55,7 +55,12 @@ def run_type(res, T, rng, tier):
 
     # 1. defaults on fresh instances (twice: a second construction must agree as well)
     for rep in range(2):
-        inst = cls()
+        try:
+            inst = cls()
+        except Exception as e:
+            res.case((T, "construct", rep))
+            res.violation(f"C09:construct-raises:{T}", f"{T}() with all defaults raised {e!r}", {"type": T})
+            return
         for sc in t.controllers:
             res.case((T, sc.name, "default", rep), nontrivial=(rep == 0))
             res.count("defaults_checked")
